@@ -331,8 +331,10 @@ void dispatchArgs(GenState &gs, Node *c) {
     return;
   }
 
+  // every parameter occupies the next register of the frame, even if its name
+  // repeats an earlier one: argument i is always copied to register i
   gs.getSymbols().argnum++;
-  gs.getSymbols().fetchVariableRegister(std::string(c->tok));
+  gs.getSymbols().register_state.push_back({true, false, std::string(c->tok)});
 }
 
 // dispatch a function definition
